@@ -12,11 +12,11 @@ class C06(SCheck):
     K = {"quick": 8, "thorough": 32}
     compare_runs = True
     ustep_rate = 0.35
-    technique = "deterministic simulation: seeded random / PCT / run-to-block schedules at system-call granularity, cross-run comparison"
+    technique = "deterministic simulation: seeded random / PCT / run-to-block schedules with preemption at system calls and (single-stepping) after atomic instructions in user space, cross-run comparison"
     rule = ("case = small tree (files at block boundaries, multi-block files, nested dirs, links) x options; each case runs under K schedules "
             "spread over both drivers, workers in {1,2,4,16,64} and scheduler kinds; distinct = distinct (thread, call) sequence signature; "
             "non-trivial = at least 3 threads issued sandbox calls")
-    assumptions = ["preemption only at system-call boundaries", "tmpfs stands in for the file system", "trees are small (<= ~20 entries)"]
+    assumptions = ["preemption at system-call boundaries and at seeded points after atomic instructions (DESIGN 2.7)", "tmpfs stands in for the file system", "trees are small (<= ~20 entries)"]
 
     def gen_case(self, r, idx, tier):
         bs = r.choice([4096, 65536, 7, 1 << 20, 1000])
